@@ -1,6 +1,7 @@
 SPECIFICATION Spec
 CONSTANTS
   Vals <- Sym2
+  OnlyReversals = FALSE
   MaxLen = 5
   Scale = 1
   LawId = "lin"
